@@ -317,6 +317,17 @@ class Elemwise(Blockwise):
     def token(self):
         return funcname(self.op).strip("_")
 
+    def _lower(self):
+        # Elemwise keeps its arrays without index tuples (and ``where`` as a
+        # parameter), so it cannot be rebuilt like a plain Blockwise
+        _, arrays, changed = unify_chunks_expr(*self.args)
+        if changed:
+            n = len(self.elemwise_args)
+            operands = list(self.operands[: len(self._parameters)])
+            if self.where is not True:
+                operands[self._parameters.index("where")] = arrays[n]
+            return type(self)(*operands, *arrays[:n])
+
     @property
     def args(self):
         # for Blockwise rather than Elemwise
